@@ -7,6 +7,8 @@ import (
 	"go/types"
 	"sort"
 	"strings"
+
+	"golang.org/x/tools/go/cfg"
 )
 
 // ---------------------------------------------------------------------------
@@ -438,4 +440,459 @@ func ruleCodecSymmetry(c *Ctx) {
 	}
 	c.Floor("types with both EncodeBinary and DecodeBinary", nboth, 50)
 	c.Floor("straight-line codec pairs compared token by token", nstraight, 15)
+}
+
+// ---------------------------------------------------------------------------
+// codec-guards: an optional part of a wire format is written and read under a condition over an already
+// (de)coded field. Where encoder and decoder of one type both guard wire operations by comparing the same field
+// with constants, the sets of constants agree: a kind added to one side only makes the value unreadable for it.
+
+type codecGuard struct {
+	field string
+	vals  map[string]bool
+	pos   token.Pos
+}
+
+// guardOf reads `recv.F == C1 || recv.F == C2 ...` (or a single comparison); ok=false for any other shape.
+func guardOf(info *types.Info, e ast.Expr, g *codecGuard) bool {
+	e = ast.Unparen(e)
+	be, ok := e.(*ast.BinaryExpr)
+	if !ok {
+		return false
+	}
+	if be.Op == token.LOR {
+		return guardOf(info, be.X, g) && guardOf(info, be.Y, g)
+	}
+	if be.Op != token.EQL {
+		return false
+	}
+	x, y := ast.Unparen(be.X), ast.Unparen(be.Y)
+	if tv, ok := info.Types[x]; ok && tv.Value != nil {
+		x, y = y, x
+	}
+	tv, ok := info.Types[y]
+	if !ok || tv.Value == nil {
+		return false
+	}
+	se, ok := x.(*ast.SelectorExpr)
+	if !ok {
+		return false
+	}
+	if v, ok := info.ObjectOf(se.Sel).(*types.Var); !ok || !v.IsField() {
+		return false
+	}
+	if g.field != "" && g.field != se.Sel.Name {
+		return false
+	}
+	g.field = se.Sel.Name
+	g.vals[tv.Value.ExactString()] = true
+	return true
+}
+
+func codecGuards(fd *FuncDecl) map[string]*codecGuard {
+	info := fd.Pkg.TypesInfo
+	out := map[string]*codecGuard{}
+	hasWire := func(n ast.Node) bool {
+		hit := false
+		ast.Inspect(n, func(x ast.Node) bool {
+			if call, ok := x.(*ast.CallExpr); ok {
+				if se, ok := ast.Unparen(call.Fun).(*ast.SelectorExpr); ok {
+					if _, ok := wirePair[se.Sel.Name]; ok {
+						hit = true
+					}
+					if se.Sel.Name == "EncodeBinary" || se.Sel.Name == "DecodeBinary" {
+						hit = true
+					}
+				}
+			}
+			return !hit
+		})
+		return hit
+	}
+	ast.Inspect(fd.Decl.Body, func(x ast.Node) bool {
+		is, ok := x.(*ast.IfStmt)
+		if !ok || !hasWire(is.Body) {
+			return true
+		}
+		g := &codecGuard{vals: map[string]bool{}, pos: is.Pos()}
+		if guardOf(info, is.Cond, g) && g.field != "" {
+			if old := out[g.field]; old != nil {
+				for v := range g.vals {
+					old.vals[v] = true
+				}
+			} else {
+				out[g.field] = g
+			}
+		}
+		return true
+	})
+	return out
+}
+
+func ruleCodecGuards(c *Ctx) {
+	type pair struct{ enc, dec *FuncDecl }
+	pairs := map[string]*pair{}
+	for _, fd := range c.P.AllFuncDecls() {
+		if fd.Decl.Recv == nil || fd.Decl.Body == nil {
+			continue
+		}
+		n := fd.Decl.Name.Name
+		if n != "EncodeBinary" && n != "DecodeBinary" {
+			continue
+		}
+		rt := fd.Obj.Type().(*types.Signature).Recv().Type()
+		if p, ok := rt.(*types.Pointer); ok {
+			rt = p.Elem()
+		}
+		nt, ok := rt.(*types.Named)
+		if !ok {
+			continue
+		}
+		k := pkgRel(nt.Obj().Pkg()) + "." + nt.Obj().Name()
+		if pairs[k] == nil {
+			pairs[k] = &pair{}
+		}
+		if n == "EncodeBinary" {
+			pairs[k].enc = fd
+		} else {
+			pairs[k].dec = fd
+		}
+	}
+	n := 0
+	for _, k := range sortedKeys(pairs) {
+		p := pairs[k]
+		if p.enc == nil || p.dec == nil {
+			continue
+		}
+		eg, dg := codecGuards(p.enc), codecGuards(p.dec)
+		for _, fld := range sortedKeys(eg) {
+			d := dg[fld]
+			if d == nil {
+				continue
+			}
+			n++
+			e := eg[fld]
+			var onlyE, onlyD []string
+			for v := range e.vals {
+				if !d.vals[v] {
+					onlyE = append(onlyE, v)
+				}
+			}
+			for v := range d.vals {
+				if !e.vals[v] {
+					onlyD = append(onlyD, v)
+				}
+			}
+			sort.Strings(onlyE)
+			sort.Strings(onlyD)
+			key := k + ".guard." + fld
+			if len(onlyE)+len(onlyD) == 0 {
+				c.OK(key, c.P.Pos(d.pos), fmt.Sprintf("optional part guarded by %s: encoder and decoder test the same %d value(s)", fld, len(e.vals)))
+			} else {
+				c.Fail(key, c.P.Pos(d.pos), fmt.Sprintf("%s: the optional part guarded by field %s is written for values %v only and read for values %v only: a value of one of those kinds does not survive encode-then-decode (the decoder leaves bytes unread or reads past the end)", k, fld, onlyE, onlyD))
+			}
+		}
+	}
+	c.Floor("optional parts guarded by constant comparisons on both sides", n, 1)
+}
+
+// ---------------------------------------------------------------------------
+// decode-context: some serialisable types carry a field that is not on the wire but decides the wire shape (it is
+// read by the type's DecodeBinary and never assigned there): the state-root flag of consensus messages. A
+// decoder of such a type that creates a nested value of a type with its own context field must hand the
+// context on, otherwise the nested part is decoded (and later re-encoded, hashed) in the default shape.
+
+func contextFields(c *Ctx) map[*types.Named][]*types.Var {
+	out := map[*types.Named][]*types.Var{}
+	for _, fd := range c.P.AllFuncDecls() {
+		if fd.Decl.Recv == nil || fd.Decl.Body == nil || fd.Decl.Name.Name != "DecodeBinary" {
+			continue
+		}
+		rt := fd.Obj.Type().(*types.Signature).Recv().Type()
+		if p, ok := rt.(*types.Pointer); ok {
+			rt = p.Elem()
+		}
+		nt, ok := rt.(*types.Named)
+		if !ok {
+			continue
+		}
+		st, ok := nt.Underlying().(*types.Struct)
+		if !ok {
+			continue
+		}
+		info := fd.Pkg.TypesInfo
+		read, written := map[*types.Var]bool{}, map[*types.Var]bool{}
+		seenM := map[*FuncDecl]bool{}
+		var scanM func(md *FuncDecl, depth int)
+		scanM = func(md *FuncDecl, depth int) {
+			if md == nil || md.Decl.Body == nil || md.Decl.Recv == nil || len(md.Decl.Recv.List[0].Names) == 0 || seenM[md] || depth > 2 {
+				return
+			}
+			seenM[md] = true
+			recv := info.ObjectOf(md.Decl.Recv.List[0].Names[0])
+			onRecv := func(se *ast.SelectorExpr) *types.Var {
+				id, ok := ast.Unparen(se.X).(*ast.Ident)
+				if !ok || info.ObjectOf(id) != recv {
+					return nil
+				}
+				v, _ := info.ObjectOf(se.Sel).(*types.Var)
+				return v
+			}
+			var markWritten func(e ast.Expr)
+			markWritten = func(e ast.Expr) {
+				switch x := ast.Unparen(e).(type) {
+				case *ast.SelectorExpr:
+					if v := onRecv(x); v != nil {
+						written[v] = true
+					} else {
+						markWritten(x.X)
+					}
+				case *ast.IndexExpr:
+					markWritten(x.X)
+				case *ast.StarExpr:
+					markWritten(x.X)
+				case *ast.UnaryExpr:
+					markWritten(x.X)
+				}
+			}
+			ast.Inspect(md.Decl.Body, func(x ast.Node) bool {
+				switch y := x.(type) {
+				case *ast.AssignStmt:
+					for _, l := range y.Lhs {
+						markWritten(l)
+					}
+				case *ast.UnaryExpr:
+					if y.Op == token.AND {
+						markWritten(y.X)
+					}
+				case *ast.CallExpr:
+					// a method called on a field may fill it; a method called on the receiver itself is followed
+					if se, ok := ast.Unparen(y.Fun).(*ast.SelectorExpr); ok {
+						if id, ok := ast.Unparen(se.X).(*ast.Ident); ok && info.ObjectOf(id) == recv {
+							if fo, ok := info.ObjectOf(se.Sel).(*types.Func); ok {
+								scanM(c.P.DeclOf(fo), depth+1)
+							}
+						} else {
+							markWritten(se.X)
+						}
+					}
+				case *ast.SelectorExpr:
+					if v := onRecv(y); v != nil {
+						read[v] = true
+					}
+				}
+				return true
+			})
+		}
+		scanM(fd, 0)
+		// a field the decoder itself no longer looks at is still context if other methods of the type read it
+		// (the flag is then only carried for the nested values): reads in any method count, writes only in the decoder
+		if tn := nt.Obj(); tn != nil {
+			for i := 0; i < nt.NumMethods(); i++ {
+				md := c.P.DeclOf(nt.Method(i))
+				if md == nil || md.Decl.Body == nil || md.Decl.Recv == nil || len(md.Decl.Recv.List[0].Names) == 0 || seenM[md] {
+					continue
+				}
+				recv := info.ObjectOf(md.Decl.Recv.List[0].Names[0])
+				ast.Inspect(md.Decl.Body, func(x ast.Node) bool {
+					if se, ok := x.(*ast.SelectorExpr); ok {
+						if id, ok := ast.Unparen(se.X).(*ast.Ident); ok && info.ObjectOf(id) == recv {
+							if v, ok := info.ObjectOf(se.Sel).(*types.Var); ok {
+								read[v] = true
+							}
+						}
+					}
+					return true
+				})
+			}
+		}
+		for i := 0; i < st.NumFields(); i++ {
+			fv := st.Field(i)
+			if b, ok := fv.Type().Underlying().(*types.Basic); ok && b.Kind() == types.Bool && read[fv] && !written[fv] {
+				out[nt] = append(out[nt], fv)
+			}
+		}
+	}
+	return out
+}
+
+func ruleDecodeContext(c *Ctx) {
+	ctxf := contextFields(c)
+	var names []string
+	for nt, fs := range ctxf {
+		for _, f := range fs {
+			names = append(names, pkgRel(nt.Obj().Pkg())+"."+nt.Obj().Name()+"."+f.Name())
+		}
+	}
+	sort.Strings(names)
+	c.Note("context fields (read, never assigned by the type's DecodeBinary): %s", strings.Join(names, ", "))
+	n := 0
+	for _, fd := range c.P.AllFuncDecls() {
+		if fd.Decl.Recv == nil || fd.Decl.Body == nil || fd.Decl.Name.Name != "DecodeBinary" {
+			continue
+		}
+		rt := fd.Obj.Type().(*types.Signature).Recv().Type()
+		if p, ok := rt.(*types.Pointer); ok {
+			rt = p.Elem()
+		}
+		nt, ok := rt.(*types.Named)
+		if !ok || len(ctxf[nt]) == 0 {
+			continue
+		}
+		info := fd.Pkg.TypesInfo
+		k := 0
+		ast.Inspect(fd.Decl.Body, func(x ast.Node) bool {
+			var made *types.Named
+			var lit *ast.CompositeLit
+			switch y := x.(type) {
+			case *ast.CompositeLit:
+				if t, ok := info.TypeOf(y).(*types.Named); ok {
+					made, lit = t, y
+				}
+			case *ast.CallExpr:
+				if id, ok := ast.Unparen(y.Fun).(*ast.Ident); ok && id.Name == "new" && len(y.Args) == 1 {
+					if _, isB := info.ObjectOf(id).(*types.Builtin); isB {
+						if t, ok := info.TypeOf(y.Args[0]).(*types.Named); ok {
+							made = t
+						}
+					}
+				}
+			}
+			if made == nil || len(ctxf[made]) == 0 {
+				return true
+			}
+			for _, cf := range ctxf[made] {
+				n++
+				k++
+				key := fmt.Sprintf("%s.forward#%d", FuncKey(fd.Obj), k)
+				set := false
+				if lit != nil {
+					for _, el := range lit.Elts {
+						if kv, ok := el.(*ast.KeyValueExpr); ok {
+							if id, ok := kv.Key.(*ast.Ident); ok && info.ObjectOf(id) == cf {
+								set = true
+							}
+						}
+					}
+				}
+				if !set {
+					// `v := new(T); if ctx { v.F = true }` - an assignment to the field somewhere in the decoder
+					ast.Inspect(fd.Decl.Body, func(z ast.Node) bool {
+						if as, ok := z.(*ast.AssignStmt); ok {
+							for _, l := range as.Lhs {
+								if se, ok := ast.Unparen(l).(*ast.SelectorExpr); ok && info.ObjectOf(se.Sel) == cf {
+									set = true
+								}
+							}
+						}
+						return true
+					})
+				}
+				if set {
+					c.OK(key, c.P.Pos(x.Pos()), fmt.Sprintf("nested %s gets its context field %s from the decoder of %s", made.Obj().Name(), cf.Name(), nt.Obj().Name()))
+				} else {
+					c.Fail(key, c.P.Pos(x.Pos()), fmt.Sprintf("%s creates a nested %s without setting its context field %s (which decides that type's wire shape) although %s itself is decoded under such a context: the nested part is read in the default shape, so a value encoded with the context on does not decode (or decodes to something else)", FuncKey(fd.Obj), made.Obj().Name(), cf.Name(), nt.Obj().Name()))
+				}
+			}
+			return true
+		})
+	}
+	c.Floor("nested constructions of context-dependent types inside context-dependent decoders", n, 3)
+}
+
+// ---------------------------------------------------------------------------
+// compress-frame: the P2P compression frame. lz4.CompressBlock gives up silently (size 0, nil error) on input that
+// does not shrink unless the destination has room for lz4.CompressBlockBound(len(src)) bytes, so the destination
+// must be sized by that function of the same source; lz4.UncompressBlock must write into a buffer whose size was
+// compared with a limit first and whose filled length is compared with the announced one.
+func ruleCompressFrame(c *Ctx) {
+	const symC, symB, symU = "github.com/pierrec/lz4.CompressBlock", "github.com/pierrec/lz4.CompressBlockBound", "github.com/pierrec/lz4.UncompressBlock"
+	nc, nu := 0, 0
+	for _, fd := range c.P.AllFuncDecls() {
+		if fd.Decl.Body == nil || !InModule(fd.Obj.Pkg()) {
+			continue
+		}
+		f := c.P.NewFuncCFG(fd)
+		for i, s := range f.CallSites(symC) {
+			if len(s.call.Args) < 2 {
+				continue
+			}
+			nc++
+			key := fmt.Sprintf("%s.compress#%d", FuncKey(fd.Obj), i+1)
+			dm := f.Mentions(s.call.Args[1], s.blk)
+			// the bound must be taken of the very source that is compressed
+			srcRoot := rootObj(f.Info, s.call.Args[0])
+			sameSrc := false
+			for _, bs := range f.CallSites(symB) {
+				if len(bs.call.Args) == 1 {
+					ast.Inspect(bs.call.Args[0], func(x ast.Node) bool {
+						if id, ok := x.(*ast.Ident); ok && srcRoot != nil && f.Info.ObjectOf(id) == srcRoot {
+							sameSrc = true
+						}
+						return true
+					})
+				}
+			}
+			if dm[symB] && sameSrc {
+				c.OK(key, c.P.Pos(s.call.Pos()), "the destination of CompressBlock is sized by CompressBlockBound of the compressed source")
+			} else {
+				c.Fail(key, c.P.Pos(s.call.Pos()), fmt.Sprintf("%s compresses into %s, which is not sized by lz4.CompressBlockBound(len(<the source>)): for input that does not shrink CompressBlock returns size 0 and no error, and the message is sent with an empty body under a header that announces the full length", FuncKey(fd.Obj), types.ExprString(s.call.Args[1])))
+			}
+		}
+		for i, s := range f.CallSites(symU) {
+			if len(s.call.Args) < 2 {
+				continue
+			}
+			nu++
+			key := fmt.Sprintf("%s.uncompress#%d", FuncKey(fd.Obj), i+1)
+			// destination: a local made with a size that an ordering comparison gates
+			dst := rootObj(f.Info, s.call.Args[1])
+			var szSyms []string
+			if dv, ok := dst.(*types.Var); ok {
+				for _, d := range f.defs[dv] {
+					for _, r := range d.rhs {
+						if mk, ok := ast.Unparen(r).(*ast.CallExpr); ok && f.calleeSym(mk) == "builtin.make" && len(mk.Args) >= 2 {
+							ast.Inspect(mk.Args[1], func(x ast.Node) bool {
+								if id, ok := x.(*ast.Ident); ok {
+									if v, ok := f.Info.ObjectOf(id).(*types.Var); ok && !v.IsField() {
+										szSyms = append(szSyms, "local:"+v.Name())
+									}
+								}
+								return true
+							})
+						}
+					}
+				}
+			}
+			bounded := ""
+			for _, sv := range szSyms {
+				res := f.CheckGate(f.Entry(), map[*cfgBlock]bool{s.blk: true}, Guard{ID: "bound", Doc: "announced length compared with a limit", Alts: [][]string{{sv}}, WholeOpen: true}, nil)
+				if res.OK {
+					for _, gp := range res.GatePos {
+						if strings.ContainsAny(gp, "<>") {
+							bounded = gp
+						}
+					}
+				}
+			}
+			// the filled size is compared with the announced one before the success return
+			sizeChecked := false
+			if as, ok := s.node.(*ast.AssignStmt); ok && len(as.Lhs) >= 1 {
+				if id, ok := as.Lhs[0].(*ast.Ident); ok && id.Name != "_" {
+					res := f.CheckGate([]*cfg.Block{s.blk}, blocksOf(f.OKReturns()), Guard{ID: "size", Doc: "decompressed size equals the announced length", Alts: [][]string{{"local:" + id.Name}}, WholeOpen: true}, nil)
+					sizeChecked = res.OK
+				}
+			}
+			switch {
+			case bounded == "":
+				c.Fail(key, c.P.Pos(s.call.Pos()), fmt.Sprintf("%s decompresses into a buffer whose announced size is not compared with a limit first: a 4-byte header allocates up to 4 GiB", FuncKey(fd.Obj)))
+			case !sizeChecked:
+				c.Fail(key, c.P.Pos(s.call.Pos()), fmt.Sprintf("%s accepts a decompressed payload without comparing the number of bytes actually produced with the announced length: a short body yields a payload padded with zeroes", FuncKey(fd.Obj)))
+			default:
+				c.OK(key, c.P.Pos(s.call.Pos()), "announced length bounded ("+bounded+") and compared with the produced size before success")
+			}
+		}
+	}
+	c.Floor("lz4.CompressBlock sites", nc, 1)
+	c.Floor("lz4.UncompressBlock sites", nu, 1)
 }
